@@ -41,6 +41,9 @@ CHECKS = {
  "C15": dict(level="model_checking", sec="3/C15", technique="stateright explicit-state BFS over all CFG construction/editing histories on the real ControlFlowGraph; structural invariants in every state and bounded trace-language equality across merge/append transitions",
    text="Every history from the empty graph or one of 5 library graphs applying new_block, push, (un)conditional edges, set_entry/exit, merge, append, insert, remove_instruction, Block::append (incl. error paths) to depth 3 (full alphabet: 2) in quick, 4 (3) in thorough; all structural invariants in every state; merge must not change, and append must sequentially compose, the set of tag/guard traces up to 8 symbols; blockify of every sequence of <=3 library graphs. Longer histories are not covered.",
    note="Trusted: harness trace enumerator (bounded at 8 symbols). State key = depth + Debug dump of the graph."),
+ "C05": dict(level="exploration", sec="3/C05", technique="exhaustive structured byte/word grids per translator x policy, each lifted in a guarded worker and checked by an independent IL well-formedness validator incl. exhaustive guard-valuation truth tables",
+   text="18 M liftings in quick (x86/amd64 byte grammar incl. prefixes, truncations, over-long strings; MIPS/PPC/AArch64 field grids; MIPS branch x delay-slot x buffer-length grid; 4 load addresses), thorough adds all ModRM/SIB forms and ALL 2^32 AArch64 words: never a panic/abort/hang, every Ok result well-sorted with exactly one enabled edge/successor under every guard valuation, and deterministic. Bytes outside the grids (for x86/MIPS/PPC) are not covered.",
+   note="Trusted: harness validator. Hangs/aborts are attributed to one case by re-running the shard in trace mode."),
 }
 NA = []
 def main():
